@@ -137,12 +137,40 @@ func (s *spyTree) Lookup(url string) urltree.LookupResult[common.EmptyStruct] {
 }
 
 type runInfo struct {
-	batches  int // non-empty batches processed
-	rekeys   int // batches after which a previously existing endpoint key had disappeared (re-keying)
-	restarts int // restarts performed while the state was non-empty
-	silent   int // convergences of the tree inside NormalizeURL (not reported to ConvergeAggregation)
-	loud     int // convergences reported to ConvergeAggregation
-	miss     int // NormalizeURL lookups that missed the URL just inserted
+	batches   int // non-empty batches processed
+	rekeys    int // batches after which a previously existing endpoint key had disappeared (re-keying)
+	restarts  int // restarts performed while the state was non-empty
+	silent    int // convergences of the tree inside NormalizeURL (not reported to ConvergeAggregation)
+	loud      int // convergences reported to ConvergeAggregation
+	miss      int // NormalizeURL lookups that missed the URL just inserted
+	rejectErr error
+	rejected  [][2]int // batches the plugin refused with an error (their records are not in the statistics)
+}
+
+// hasEmptySegment: the URL has an empty host label or path segment (`//`), which
+// urltree.validateURL refuses.
+func hasEmptySegment(u string) bool {
+	for _, p := range parts(u) {
+		if p.val == "" {
+			return true
+		}
+	}
+	return false
+}
+
+// survivors are the records of recs[:upto] outside the rejected batches.
+func survivors(recs []rec, upto int, rejected [][2]int) []rec {
+	out := []rec{}
+	for i := 0; i < upto; i++ {
+		lost := false
+		for _, b := range rejected {
+			lost = lost || (i >= b[0] && i < b[1])
+		}
+		if !lost {
+			out = append(out, recs[i])
+		}
+	}
+	return out
 }
 
 // runPure applies GetUpdatedAggregations batch by batch (what Run does between
@@ -171,10 +199,14 @@ func runPure(c kase, cuts []int) (discovery.Agg, runInfo, error) {
 		for k := range agg.Endpoints {
 			prev = append(prev, k)
 		}
-		agg, err = discovery.GetUpdatedAggregations(agg, logs, tree)
+		next, err := discovery.GetUpdatedAggregations(agg, logs, tree)
 		if err != nil {
-			return agg, info, fmt.Errorf("GetUpdatedAggregations(batch %v): %w", b, err)
+			// Run logs the error and returns it without updating the state
+			info.rejected = append(info.rejected, b)
+			info.rejectErr = fmt.Errorf("GetUpdatedAggregations(batch %v): %w", b, err)
+			continue
 		}
+		agg = next
 		info.batches++
 		for _, k := range prev {
 			if _, ok := agg.Endpoints[k]; !ok {
@@ -204,7 +236,7 @@ func readState(path string) (*discovery.Agg, error) {
 // is rebuilt from the known endpoints only, exactly as FLBPluginInit does.
 // check is called with the persisted aggregate and the prefix length at every
 // restart and at the end.
-func runStateful(c kase, cuts []int, restart []bool, dir string, check func(a *discovery.Agg, upto int, when string) error) (*discovery.Agg, runInfo, error) {
+func runStateful(c kase, cuts []int, restart []bool, dir string, check func(a *discovery.Agg, upto int, rejected [][2]int, when string) error) (*discovery.Agg, runInfo, error) {
 	info := runInfo{}
 	path := filepath.Join(dir, "discovery-state.json")
 	_ = os.Remove(path)
@@ -223,7 +255,7 @@ func runStateful(c kase, cuts []int, restart []bool, dir string, check func(a *d
 			if err != nil {
 				return nil, info, err
 			}
-			if err := check(persisted, b[0], fmt.Sprintf("state file before restart at record %d", b[0])); err != nil {
+			if err := check(persisted, b[0], info.rejected, fmt.Sprintf("state file before restart at record %d", b[0])); err != nil {
 				return nil, info, err
 			}
 			if len(persisted.Endpoints) > 0 {
@@ -243,7 +275,9 @@ func runStateful(c kase, cuts []int, restart []bool, dir string, check func(a *d
 			logs = append(logs, c.Recs[i].accessLog(i))
 		}
 		if err := discovery.Run(st, logs, tree); err != nil {
-			return nil, info, fmt.Errorf("Run(batch %v): %w", b, err)
+			info.rejected = append(info.rejected, b)
+			info.rejectErr = fmt.Errorf("Run(batch %v): %w", b, err)
+			continue
 		}
 		if len(logs) > 0 {
 			info.batches++
@@ -254,7 +288,7 @@ func runStateful(c kase, cuts []int, restart []bool, dir string, check func(a *d
 	if err != nil {
 		return nil, info, err
 	}
-	return final, info, check(final, len(c.Recs), "final state file")
+	return final, info, check(final, len(c.Recs), info.rejected, "final state file")
 }
 
 // ---- oracle: independent fold over the raw records --------------------------
@@ -746,10 +780,11 @@ type genOpts struct {
 	maxItems   int
 	burstOneIn int // a stream item is a burst of consecutive ids with probability 1/burstOneIn
 	burstMin   func(threshold int) int
+	badOneIn   int // one case in badOneIn may contain URLs with an empty path segment (0 = never)
 }
 
 var smallTrees = genOpts{thresholds: []int{2, 2, 2, 3, 3, 5, productionThreshold}, maxRecs: 200, maxItems: 40, burstOneIn: 4,
-	burstMin: func(int) int { return 2 }}
+	burstMin: func(int) int { return 2 }, badOneIn: 25}
 
 // productionTrees: only the plugin's real threshold, streams made of few long
 // bursts so that the 50-way split is crossed at several depths.
@@ -790,9 +825,23 @@ func genCase(t *rapid.T, g genOpts) kase {
 		}
 	}
 	span := c.Threshold + 3
+	allowBad := g.badOneIn > 0 && rapid.IntRange(1, g.badOneIn).Draw(t, "allowbad") == g.badOneIn
 	recGen := func(url string) *rapid.Generator[rec] {
 		return rapid.Custom(func(t *rapid.T) rec {
 			r := rec{U: url}
+			if allowBad && rapid.IntRange(0, 7).Draw(t, "bad") == 7 {
+				// a doubled slash, as a client may well send it
+				k := rapid.IntRange(1, strings.Count(url, "/")).Draw(t, "badpos")
+				idx := 0
+				for i := 0; i < len(url); i++ {
+					if url[i] == '/' {
+						if k--; k == 0 {
+							idx = i
+						}
+					}
+				}
+				r.U = url[:idx] + "/" + url[idx:]
+			}
 			if rapid.IntRange(0, 19).Draw(t, "slash") == 19 {
 				r.U += "/"
 			}
@@ -1112,33 +1161,46 @@ func evaluate(c kase, dir string) (o outcome) {
 	}
 	var err error
 	if o.single, o.info1, err = runPure(c, nil); err != nil {
-		o.violation = fmt.Errorf("a batch was rejected, its records are lost: %v", err)
+		o.outside = err
 		return
 	}
 	if o.partA, o.infoA, err = runPure(c, c.CutsA); err != nil {
-		o.violation = fmt.Errorf("a batch was rejected, its records are lost: %v", err)
+		o.outside = err
 		return
 	}
 	if o.partB, o.infoB, err = runPure(c, c.CutsB); err != nil {
-		o.violation = fmt.Errorf("a batch was rejected, its records are lost: %v", err)
+		o.outside = err
 		return
 	}
-	// (1) conservation, every run
-	for _, x := range []struct {
+	runs := []struct {
 		name string
+		cuts []int
 		a    discovery.Agg
-	}{{"single batch", o.single}, {fmt.Sprintf("batches cut at %v", c.CutsA), o.partA}, {fmt.Sprintf("batches cut at %v", c.CutsB), o.partB}} {
-		if e := conservation(x.name, x.a, c.Recs, false); e != nil {
+		info runInfo
+	}{{"single batch", nil, o.single, o.info1}, {fmt.Sprintf("batches cut at %v", c.CutsA), c.CutsA, o.partA, o.infoA}, {fmt.Sprintf("batches cut at %v", c.CutsB), c.CutsB, o.partB, o.infoB}}
+	// (0) no batch may be refused: its records would be missing from the statistics
+	rejectedSeen := false
+	for _, x := range runs {
+		if len(x.info.rejected) == 0 {
+			continue
+		}
+		rejectedSeen = true
+		if !o.noteRejection(c, x.name, x.info) {
+			return
+		}
+	}
+	// (1) conservation, every run (after a refusal attributed to C15-F4: of the records outside the refused batches)
+	for _, x := range runs {
+		if e := conservation(x.name, x.a, survivors(c.Recs, len(c.Recs), x.info.rejected), false); e != nil {
 			o.violation = e
 			return
 		}
 	}
 	// (2) batch invariance of the final statistics
-	for _, x := range []struct {
-		cuts []int
-		a    discovery.Agg
-		info runInfo
-	}{{c.CutsA, o.partA, o.infoA}, {c.CutsB, o.partB, o.infoB}} {
+	for _, x := range runs[1:] {
+		if len(o.info1.rejected)+len(x.info.rejected) > 0 {
+			continue // different batches were refused: already reported under (0)
+		}
 		d := diffAgg(o.single, x.a, false)
 		if d == "" {
 			continue
@@ -1161,15 +1223,20 @@ func evaluate(c kase, dir string) (o outcome) {
 		o.restarted = o.restarted || f
 	}
 	var violation error
-	o.stateful, o.infoS, err = runStateful(c, c.CutsB, c.Restart, dir, func(a *discovery.Agg, upto int, when string) error {
-		if e := conservation(when, *a, c.Recs[:upto], true); e != nil && violation == nil {
+	o.stateful, o.infoS, err = runStateful(c, c.CutsB, c.Restart, dir, func(a *discovery.Agg, upto int, rejected [][2]int, when string) error {
+		if e := conservation(when, *a, survivors(c.Recs, upto, rejected), true); e != nil && violation == nil {
 			violation = e
 		}
 		return nil
 	})
 	if err != nil {
-		o.violation = fmt.Errorf("stateful run failed, records are lost: %v", err)
+		o.violation = fmt.Errorf("VERIF-INFRA: stateful run could not be driven: %v", err)
 		return
+	}
+	if len(o.infoS.rejected) > 0 && !rejectedSeen {
+		if !o.noteRejection(c, "Run with state file", o.infoS) {
+			return
+		}
 	}
 	if violation != nil {
 		o.violation = violation
@@ -1189,6 +1256,41 @@ func evaluate(c kase, dir string) (o outcome) {
 		}
 	}
 	return
+}
+
+// isRejectedForEmptySegment (C15-F4): every refused batch contains a non-internal
+// record whose URL has an empty segment. The defect model — exactly the records
+// of the refused batches are missing, everything else is conserved — is what the
+// conservation oracle is then run against.
+func isRejectedForEmptySegment(c kase, info runInfo) bool {
+	for _, b := range info.rejected {
+		found := false
+		for i := b[0]; i < b[1]; i++ {
+			found = found || (!c.Recs[i].In && hasEmptySegment(c.Recs[i].U))
+		}
+		if !found {
+			return false
+		}
+	}
+	return len(info.rejected) > 0
+}
+
+func (o *outcome) noteRejection(c kase, name string, info runInfo) bool {
+	lost := 0
+	for _, b := range info.rejected {
+		for i := b[0]; i < b[1]; i++ {
+			if !c.Recs[i].In {
+				lost++
+			}
+		}
+	}
+	msg := fmt.Sprintf("%s: %d batch(es) refused, %d records missing from the statistics: %v", name, len(info.rejected), lost, info.rejectErr)
+	if isRejectedForEmptySegment(c, info) {
+		o.attributed = append(o.attributed, attributed{"C15-F4", msg})
+		return true
+	}
+	o.violation = fmt.Errorf("%s", msg)
+	return false
 }
 
 func scratchDir(t testing.TB) string {
@@ -1242,6 +1344,9 @@ func classify(r *ev.Recorder, c kase, o outcome) {
 	}
 	if o.info1.miss+o.infoA.miss+o.infoB.miss > 0 {
 		r.Class("lookup-miss-after-insert")
+	}
+	if len(o.info1.rejected) > 0 {
+		r.Class("url-with-empty-segment")
 	}
 	for _, a := range o.attributed {
 		r.Class("attributed-" + a.id)
@@ -1444,4 +1549,9 @@ func TestWitnessF3LostTerminalValue(t *testing.T) {
 		cases = append(cases, witnessF3())
 	}
 	runWitness(t, "C15-F3", cases...)
+}
+
+// C15-F4. A doubled slash in one URL: the whole batch is refused.
+func TestWitnessF4BatchRefused(t *testing.T) {
+	runWitness(t, "C15-F4", witnessCase(2, 1, []string{"api.com/users/0", "api.com/users//1", "api.com/users/2"}))
 }
